@@ -15,7 +15,16 @@ def run(ctx):
     ctx.build_harness()
     ctx.cov["trusted_base"] = ["TLC 1.8.0", "message-level interposer of the harness (reassembles plaintext handshake messages, re-frames records)",
                                "an honest gmtls endpoint supplies the context-correct messages"]
-    r = ctx.tlc("TLCPPeer", "TLCPPeer.cfg", workers=1, timeout=900)
+    cfgname = "TLCPPeer.cfg"
+    if thorough:
+        # the other GMSSL suite, TLS 1.2 ECDHE (ServerKeyExchange in the flight) and TLS 1.0 CBC as further endpoint roles
+        d = ctx.tladir()
+        t = open(os.path.join(d, "TLCPPeer.cfg")).read()
+        t = t.replace('"server_tls10"}', '"server_tls10", "client_gm_gcm", "server_gm_gcm", "client_tls_ecdhe", "server_tls_ecdhe"}')
+        cfgname = "TLCPPeer_thorough.cfg"
+        with open(os.path.join(d, cfgname), "w") as f:
+            f.write(t)
+    r = ctx.tlc("TLCPPeer", cfgname, workers=1, timeout=1800)
     rows = markers(r["out"], "CASE")
     if len(rows) < 1000:
         raise Infra("only %d cases from TLCPPeer" % len(rows))
